@@ -69,4 +69,106 @@ example : runOps (addOrReplace [] Gen.addrInvalidates 7 [1, 2, 3] 2) [.fill 100 
     writesOver (addOrReplace [] Gen.addrInvalidates 7 [1, 2, 3] 2) 7 [.fill 100 [[1, 2, 3]], .fill 100 [[1, 2, 3]]] = 2 ∧
     runOps [] [.fill 100 [[1, 2, 3]]] = none := by decide
 
+/-! ### known finding F10: "applying updates with broadcasting disabled leaves the backlog untouched" is false when
+   the batch is about the instance itself -/
+
+/-- the clause at full strength -/
+def NoBroadcastFull (E : Env) : Prop :=
+  ∀ (s s' : State) (us : List Member) (orc left : Oracle) (eff : List Effect) (r : Res), Reachable E s →
+    step E s (.applyMany us false) orc = .done s' eff r left → s'.updates = s.updates
+
+def f10S0 : State := State.init ⟨1, 0⟩ .bump C08H.exCfg
+def f10S1 : State :=
+  match step C08H.exEnv f10S0 (.applyMany [⟨⟨2, 0⟩, 0, .alive⟩] true) ⟨[.idx 0], []⟩ with
+  | .done s _ _ _ => s | .stuck _ => f10S0
+def f10S2 : State :=
+  match step C08H.exEnv f10S1 (.applyMany [⟨⟨1, 0⟩, 0, .suspect⟩] false) ⟨[], [⟨[[0, 2, 0, 0, 0, 0, 0]], []⟩]⟩ with
+  | .done s _ _ _ => s | .stuck _ => f10S0
+
+/-- **F10 (open finding): false as stated.** Instance 1 holds one pending update (member 2, five transmissions
+    left); a batch applied with `do_broadcast = false` that says instance 1 is Suspect makes it gossip the
+    refutation, and the pending update is left with four transmissions. Replayed on the real crate:
+    `corpus/C15/F10-nobroadcast-self-update.json`. -/
+theorem no_broadcast_full_is_false : ¬ NoBroadcastFull C08H.exEnv := by
+  intro h
+  have hreach : Reachable C08H.exEnv f10S1 :=
+    Reachable.step (.applyMany [⟨⟨2, 0⟩, 0, .alive⟩] true) ⟨[.idx 0], []⟩ _ _ _ (Reachable.init ⟨1, 0⟩ .bump C08H.exCfg) rfl
+  have := h f10S1 f10S2 [⟨⟨1, 0⟩, 0, .suspect⟩] ⟨[], [⟨[[0, 2, 0, 0, 0, 0, 0]], []⟩]⟩ _ _ _ hreach rfl
+  revert this
+  decide
+
+/-- updates backlog and identity are exactly these -/
+def UpdIs (U : List (Entry Nat)) (I : Id) (s : State) : Prop := s.updates = U ∧ s.id = I
+
+theorem UpdIs.applyUpdate (E : Env) (U : List (Entry Nat)) (I : Id) (u : Member) : Pres (UpdIs U I) (Foca.applyUpdate E u false) := by
+  constructor
+  intro c hc
+  unfold Foca.applyUpdate
+  simp only [bind_run, getS_run]
+  by_cases hdbg : (E.debug && c.s.id == u.id) = true
+  · simp [hdbg, panicAt]
+  · simp only [hdbg, Bool.false_eq_true, ↓reduceIte, bind_run]
+    have hm := membersApply_only u c
+    cases h : membersApply u c with
+    | stuck x => trivial
+    | err e c1 => rw [h] at hm; simp only [MemOnly] at hm ⊢; unfold UpdIs at *; rw [hm]; exact hc
+    | ok sm c1 =>
+      rw [h] at hm
+      simp only [MemOnly, OnlyMembership] at hm
+      obtain ⟨c2, h1, h2, _⟩ := C08.notifications_follow_summary E sm u c1
+      simp only [h1, pure_run]
+      unfold UpdIs at *
+      rw [h2, hm]
+      exact hc
+
+theorem UpdIs.applyLoop (E : Env) (U : List (Entry Nat)) (I : Id) (us : List Member) (hus : ∀ u ∈ us, u.id.addr ≠ I.addr) :
+    Pres (UpdIs U I) (Foca.applyLoop E false us) := by
+  induction us with
+  | nil => unfold Foca.applyLoop; exact Pres.pure _
+  | cons u rest ih =>
+    unfold Foca.applyLoop
+    refine Pres.bind ⟨fun c hc => ?_⟩ (fun _ => ih (fun x hx => hus x (by simp [hx])))
+    have hu := hus u (by simp)
+    unfold Foca.applyOne
+    simp only [bind_run, getS_run]
+    have h1 : (u.id == c.s.id) = false := by
+      rw [hc.2]
+      apply beq_false_of_ne
+      intro h; exact hu (by rw [h])
+    have h2 : (c.s.id.addr == u.id.addr) = false := by
+      rw [hc.2]
+      apply beq_false_of_ne
+      exact fun h => hu h.symm
+    simp only [h1, h2, Bool.false_eq_true, ↓reduceIte]
+    have := (UpdIs.applyUpdate E U I u).run c hc
+    cases h : Foca.applyUpdate E u false c with
+    | stuck x => simp only [bind_run, h]
+    | err e c1 => rw [h] at this; simp only [bind_run, h]; exact this
+    | ok a c1 => rw [h] at this; simp only [bind_run, h, pure_run]; exact this
+
+/-- `adjust_connection_state` leaves backlog and identity alone -/
+theorem UpdIs.adjust (E : Env) (U : List (Entry Nat)) (I : Id) : Pres (UpdIs U I) (Foca.adjustConnectionState E) := by
+  unfold Foca.adjustConnectionState Foca.becomeConnected Foca.becomeDisconnected
+  pres
+  all_goals exact Pres.modS_of (fun s hs => hs)
+
+/-- **What does hold (partial).** A batch applied with `do_broadcast = false` that names no member of the instance's
+    own address — whatever it says about the other members, whatever the RNG draws, also when the call fails — leaves
+    the updates backlog exactly as it was. -/
+theorem no_broadcast_batch_about_others_partial (E : Env) (s : State) (us : List Member) (orc : Oracle)
+    (hus : ∀ u ∈ us, u.id.addr ≠ s.id.addr) :
+    match step E s (.applyMany us false) orc with
+    | .done s' _ _ _ => s'.updates = s.updates
+    | .stuck _ => True := by
+  have hp : Pres (UpdIs s.updates s.id) (Foca.applyMany E us false) := by
+    unfold Foca.applyMany
+    exact Pres.bind (UpdIs.applyLoop E _ _ us hus) (fun _ => UpdIs.adjust E _ _)
+  have := hp.run ⟨s, [], orc⟩ ⟨rfl, rfl⟩
+  unfold step runOp
+  simp only [bind_run]
+  cases h : Foca.applyMany E us false ⟨s, [], orc⟩ with
+  | stuck x => trivial
+  | err e c => rw [h] at this; exact this.1
+  | ok a c => rw [h] at this; simp only [pure_run]; exact this.1
+
 end Foca.C15H
